@@ -42,12 +42,11 @@ prop('C03', units=['bk'], level='proof',
      not_covered=['identity is proved in exact arithmetic; accumulated Decimal rounding is not modelled'],
      witnesses=[])
 
-prop('C04', units=['bk', 'agg', 'drv'], level='proof',
-     technique='Verus: type invariant of ConstrainedDecimal (>= 0), sum invariant wf() of the affiliate status table, delta_for_tx Err <==> step_reject, prefix invariant of the driver; witnesses for message visibility',
-     level_text='Deductive proof (Verus) of non-negativity, all-affiliate total = sum, registered => no cost base/gain, rejection iff impossible (model E), correct prefix before an error. Visibility of the message in every output mode is outside contracts and only watched by CLI witnesses.',
+prop('C04', units=['bk', 'agg', 'drv', 'rnd'], level='proof',
+     technique='Verus: type invariant of ConstrainedDecimal (>= 0), sum invariant wf() of the affiliate status table, delta_for_tx Err <==> step_reject, prefix invariant of the ledger (the partial ledger of a rejected security is a prefix of a correct one), gains table over exactly the accepted ledgers, driver: an error stays with its security; run_acb_app_to_render_model: the table of a rejected security carries its rejection message; witnesses for message visibility in the writers',
+     level_text='Deductive proof (Verus) of non-negativity, all-affiliate total = sum, registered => no cost base/gain, rejection iff impossible (model E), correct prefix before an error, exclusion of a rejected security from every gains total, and that the rejection message is attached to that security\'s table in the render model. How the two writers print a table (text / CSV) is outside contracts and watched by witness D5.',
      level_note=BK_NOTE + ' D13 (rounded split factor) is invisible to model E and guarded by its witness only.',
-     not_covered=['message reaches the user in every output mode (witness replay only: D5)', 'rounded-factor acceptance (D13, witness only)',
-                  'application-level "error stays per security" (D15, witness; see C08)'],
+     not_covered=['TextWriter / CsvWriter: printing of the errors of a table (tabled / csv crates; witness D5)', 'rounded-factor acceptance (D13, witness only)'],
      witnesses=['D5', 'D13', 'D15'])
 
 prop('C15', units=['bk', 'ord'], level='proof',
@@ -96,11 +95,11 @@ prop('C07', units=['drv', 'ord', 'bk'], level='proof',
      not_covered=['header case/padding/unknown columns (parse_tx_csv)', 'global_read_index accumulation in the async I/O driver'],
      witnesses=[])
 
-prop('C08', units=['drv', 'ord', 'agg', 'bk'], level='proof',
-     technique='Verus: split_txs_by_security (map[s] == filter(all, s)), get_cumulative_capital_gains (table = exactly the accepted ledgers; aggregate = sum over that table), ledger contract mentions one security only',
-     level_text='Deductive proof (Verus) that the per-security input is the stable filter of the rows, that a failing security is absent from the gains table and the aggregate sums exactly the accepted ones. The driver loop of run_acb_app_to_delta_models (async I/O) is watched by witness D15 only.',
-     level_note=BK_NOTE,
-     not_covered=['run_acb_app_to_delta_models driver loop (by-value HashMap loop inside async I/O code)'],
+prop('C08', units=['drv', 'ord', 'agg', 'bk', 'rnd'], level='proof',
+     technique='Verus: split_txs_by_security (map[s] == filter(all, s)); run_acb_app_to_delta_models end to end (every security of the input gets its own result = the ledger of its own rows, split expansion included; syntactic obligation: no early exit in the per-security phase); get_cumulative_capital_gains (table = exactly the accepted ledgers; aggregate = sum over that table: adding a security changes it by that security\'s own totals); run_acb_app_to_render_model (one table per security)',
+     level_text='Deductive proof (Verus) that the per-security input is the stable filter of the rows, that each security\'s result depends on its own rows and opening position only, that a failing security keeps its error to itself, is absent from the gains table, and that the aggregate sums exactly the accepted securities.',
+     level_note=BK_NOTE + ' hole_map_entries / hole_map_into_vec paraphrase by-value HashMap iteration (arbitrary order).',
+     not_covered=['rendering of the tables (strings)'],
      witnesses=['D15'])
 
 prop('C09', units=['ord', 'costs', 'agg', 'bk', 'rnd'], level='proof',
